@@ -11,7 +11,7 @@ LEVEL = "exploration"
 RULE = ("cases = generated 3D plotfiles with properly nested levels on even blocking factors "
         "{2,4,8}, bisection tilings and 'mixed' tensor tilings whose smallest extent does not "
         "divide box origins (4/6, 8/12, 16/24 cells), partial refinement, anisotropic cells, 1-4 "
-        "levels, any file layout x field x volFrac on/off x level limit, through both surfaces "
+        "levels, any file layout, covered coarse cells holding NaN/inf in a quarter of the cases x field x volFrac on/off x level limit, through both surfaces "
         "(volume_integral on a limited reader; the pestle entry point with --limit_level / "
         "--volfrac); one evaluation = one integral compared with the model sum (rtol 1e-10 of "
         "sum|terms|). distinct = hash(model, field, volfrac, limit, surface); non-trivial = >=2 "
@@ -19,7 +19,7 @@ RULE = ("cases = generated 3D plotfiles with properly nested levels on even bloc
 ASSUMPTIONS = ["float reassociation only: tolerance 1e-10 * sum of |terms| (one lost or doubled cell "
                "is >= 1e-4 of that)", "pool shim M1 with shuffled schedules",
                "blocking factor even (statement's own restriction)"]
-REQUIRED_OBS = {"integrals": 100, "mixed_tilings": 2, "mixed_fine_level_tilings": 2, "uniform_boxes_offset_patches": 1, "cli_runs": 30,
+REQUIRED_OBS = {"integrals": 100, "covered_cells_nonfinite": 3, "mixed_tilings": 2, "mixed_fine_level_tilings": 2, "uniform_boxes_offset_patches": 1, "cli_runs": 30,
                 "limited": 30, "volfrac": 30}
 TIMEOUT = {"quick": 600, "thorough": 3000}
 
@@ -50,7 +50,7 @@ def cases(tier, seed):
                 g["nlevels"] = min(g["nlevels"], 2)
             if bf == 4:
                 g["nlevels"] = min(g["nlevels"], 3)
-        cs.append({"gen": g, "sel_seed": seed * 61 + i, "fmt": dict(ref_ratio_extra=rng.choice([0, 0, 1, 3]), trailing_blank=rng.random() < 0.7, close_blank=rng.random() < 0.3, floatfmt=rng.choice(["repr", "17g"]))})
+        cs.append({"gen": g, "sel_seed": seed * 61 + i, "poison_covered": i % 4 == 1, "fmt": dict(ref_ratio_extra=rng.choice([0, 0, 1, 3]), trailing_blank=rng.random() < 0.7, close_blank=rng.random() < 0.3, floatfmt=rng.choice(["repr", "17g"]))})
     return cs
 
 
@@ -96,7 +96,9 @@ def run_case(case, work, rec):
     shapes = {b.shape for lv in m.boxes for b in lv}
     if len(shapes) == 1 and any(v % min(next(iter(shapes))) for lv in m.boxes[1:] for b in lv for v in b.lo):
         rec.count("uniform_boxes_offset_patches")
-    rec.sample({"plotfile": gen.describe(m), "mixed_box_sizes": mixed})
+    if getattr(m, "poisoned_cells", 0):
+        rec.count("covered_cells_nonfinite")       # cells that must count zero times hold NaN / inf
+    rec.sample({"plotfile": gen.describe(m), "mixed_box_sizes": mixed, "covered_cells_poisoned": getattr(m, "poisoned_cells", 0)})
     finest = m.nlevels - 1
     partial = m.nlevels >= 2 and any((gen.level_map(m, lv + 1) == lv).any() for lv in range(finest))
     n0 = dict(contracts.COUNTS)
@@ -146,7 +148,12 @@ def run_case(case, work, rec):
                     t = tol if surface != "cli" else max(tol, 2e-15)
                     ntasks = sum(c[1] for c in pools.CTL.calls)
                     probs = []
-                    if got is None or not abs(got - exp) <= t:
+                    if not np.isfinite(exp):
+                        # a level limit that exposes poisoned coarse cells: the sum itself is not finite
+                        rec.count("nonfinite_expected")
+                        if got is None or np.isfinite(got):
+                            probs.append(f"integral {got!r} although uncovered cells hold non-finite values (sum {exp!r})")
+                    elif got is None or not abs(got - exp) <= t:
                         rel = abs((got or 0) - exp) / mag if mag else float("inf")
                         probs.append(f"integral {got!r} != sum over uncovered cells {exp!r} (relative to sum|terms|: {rel:.3e})")
                     if ntasks == nboxes:
